@@ -51,11 +51,15 @@ Fixpoint lookup (k : value) (l : list (value * value)) : option value :=
   | (k', v) :: r => if value_eqb k k' then Some v else lookup k r
   end.
 
-(* Python `d[k] = v`: replace the value of an existing key, else append *)
+(* Python `d[k] = v`: replace the value of an existing key, else append (a dict / an attribute map never
+   holds a key twice, so any further entry with that key is dropped) *)
+Definition drop_key (k : value) (l : list (value * value)) : list (value * value) :=
+  filter (fun kv => negb (value_eqb k (fst kv))) l.
+
 Fixpoint set_item (k v : value) (l : list (value * value)) : list (value * value) :=
   match l with
   | [] => [(k, v)]
-  | (k', v') :: r => if value_eqb k k' then (k, v) :: r else (k', v') :: set_item k v r
+  | (k', v') :: r => if value_eqb k k' then (k, v) :: drop_key k r else (k', v') :: set_item k v r
   end.
 
 Definition attr (c : cell) (n : string) : option value := lookup (At n) (citems c).
@@ -77,8 +81,14 @@ Definition append (h : heap) (a : addr) (e : value) : heap :=
   | None => h
   end.
 
-Definition elems (c : cell) : list value := map snd (citems c).      (* list / DictList elements *)
-Definition keys (c : cell) : list value := map fst (citems c).       (* set elements / dict keys *)
+Definition is_object (k : kind) : bool :=
+  match k with KModel | KReaction | KMetabolite | KGene | KGroup => true | _ => false end.
+
+(* iteration over a container cell (a cobra object is not iterable) *)
+Definition elems (c : cell) : list value :=                            (* list / DictList elements *)
+  if is_object (ckind c) then [] else map snd (citems c).
+Definition keys (c : cell) : list value :=                             (* set elements / dict keys *)
+  if is_object (ckind c) then [] else map fst (citems c).
 
 (* ------------------------------------------------------------------ pointers and reachability *)
 Definition vrefs (v : value) : list addr := match v with Ref a => [a] | At _ => [] end.
